@@ -6,6 +6,7 @@ import RV.Facts.Generated
 import RV.Model.Wire
 import RV.Facts.Expected
 import RV.Facts.ExpectedC16
+import RV.Facts.ExpectedC17
 open RV RV.Facts
 
 def natFacts : List (String × Nat × Nat) := [
@@ -28,7 +29,11 @@ def listFacts : List (String × List Nat × List Nat) := [
   ("c16Format", Generated.c16Format, ExpectedC16.c16Format),
   ("c16ValueNumber", Generated.c16ValueNumber, ExpectedC16.c16ValueNumber)]
 
+def list2Facts : List (String × List (List Nat) × List (List Nat)) := [
+  ("c17Ident", Generated.c17Ident, ExpectedC17.c17Ident)]
+
 def coverFacts : List (String × Bool) := [
+  ("c17Names", ExpectedC17.covers),
   ("c16TypeTokens", ExpectedC16.covers Generated.c16TypeTokens ExpectedC16.mustTypeTokens),
   ("c16FlagTokens", ExpectedC16.covers Generated.c16FlagTokens ExpectedC16.mustFlagTokens),
   ("c16FormatTokens", ExpectedC16.covers Generated.c16FormatTokens ExpectedC16.mustFormatTokens),
@@ -61,6 +66,10 @@ def main : IO Unit := do
   for (n, g, e) in setFacts do
     for k in List.range 301 do
       if g.contains k != e.contains k then IO.println s!"ROW\t{n}\t{k}\tgenerated={g.contains k}\tmodel={e.contains k}"
+  for (n, g, e) in list2Facts do
+    if g.length != e.length then IO.println s!"ROW\t{n}\t-1\tlength generated={g.length} model={e.length}"
+    for (i, (x, y)) in (List.zip g e).zipIdx.map (fun p => (p.2, p.1)) do
+      if x != y then IO.println s!"ROW\t{n}\t{i}\tgenerated={x}\tmodel={y}"
   for (n, ok) in coverFacts do
     if !ok then IO.println s!"ROW\t{n}\t-1\tcandidate list does not cover the required tokens"
   for (n, g) in astFacts do
